@@ -61,6 +61,11 @@ def unit_from_string(unit_str: str | None) -> pint.Unit | None:
             except Exception:
                 logger.warning(f"Invalid unit {unit_str!r}")
                 unit = None
+        except Exception:
+            # A unit annotation should never make a model fail to load
+            # (e.g 'mV + mV' raises a TypeError inside pint)
+            logger.warning(f"Invalid unit {unit_str!r}")
+            unit = None
     else:
         unit = None
     return unit
